@@ -244,6 +244,28 @@ class C08(Prop):
             if v == dup:
                 res.fail(("uniqueItems-array", "accepts-duplicate" if v else "rejects-distinct", uniq_path(arr)),
                          "array=%s" % impl.cj(arr))
+        # the same values loaded with object_pairs_hook=OrderedDict (a documented way to load JSON): member order
+        # still must not matter
+        import collections
+
+        def od(v):
+            if isinstance(v, dict):
+                return collections.OrderedDict((k, od(e)) for k, e in v.items())
+            if isinstance(v, list):
+                return [od(e) for e in v]
+            return v
+        if any(isinstance(v, dict) for v in (c, x)) or "key-order" in case.get("rewrites", []):
+            try:
+                ov = cls({"enum": [od(c)]}).is_valid(od(x))
+                uv = cls({"uniqueItems": True}).is_valid([od(c), od(x)])
+            except Exception as e:
+                res.fail(("crash", "ordered-dict", impl.tname(e)), repr(e))
+                ov = uv = None
+            res.labels.append("ordered-dict")
+            if ov is not None and (ov != eq or uv == eq):
+                res.fail(("ordered-dict", "enum" if ov != eq else "uniqueItems"),
+                         "c=%s x=%s as OrderedDicts: enum accepts=%r uniqueItems accepts=%r, O-EQ=%r" % (
+                             impl.cj(c), impl.cj(x), ov, uv, eq))
         kinds = [k for k in case.get("rewrites", []) if k != "identity"]
         res.labels.append("equal" if eq else "unequal")
         for k in set(kinds):
